@@ -334,13 +334,17 @@ bool TimeZoneInfo::ExtendTransitions() {
     return EquivTransitions(transitions_.back().type_index, dst_ti);
   }
 
-  // Extend the transitions for an additional 401 years using the future
+  // Extend the transitions for an additional 402 years using the future
   // specification. Years beyond those can be handled by mapping back to
   // a cycle-equivalent year within that range. Note that we need 401
   // (well, at least the first transition in the 401st year) so that the
-  // end of the 400th year is mapped back to an extended year. And first
+  // end of the 400th year is mapped back to an extended year. The 402nd
+  // year is needed because a transition can fall, in local time, in the
+  // civil year before the one it was generated for (e.g., "J365/26" or
+  // "0/-1"), so the civil times of the 401st year are only all covered
+  // once the transitions of the following year are present too. And first
   // we may also need two additional transitions for the current year.
-  transitions_.reserve(transitions_.size() + 2 + 401 * 2);
+  transitions_.reserve(transitions_.size() + 2 + 402 * 2);
   extended_ = true;
 
   const Transition& last(transitions_.back());
@@ -354,7 +358,7 @@ bool TimeZoneInfo::ExtendTransitions() {
 
   Transition dst = {0, dst_ti, civil_second(), civil_second()};
   Transition std = {0, std_ti, civil_second(), civil_second()};
-  for (const year_t limit = last_year_ + 401;; ++last_year_) {
+  for (const year_t limit = last_year_ + 402;; ++last_year_) {
     auto dst_trans_off = TransOffset(leap_year, jan1_weekday, posix.dst_start);
     auto std_trans_off = TransOffset(leap_year, jan1_weekday, posix.dst_end);
     dst.unix_time = jan1_time + dst_trans_off - posix.std_offset;
@@ -370,6 +374,10 @@ bool TimeZoneInfo::ExtendTransitions() {
     jan1_weekday = (jan1_weekday + kDaysPerYear[leap_year]) % 7;
     leap_year = !leap_year && IsLeap(last_year_ + 1);
   }
+
+  // MakeTime() may only use the table directly for civil years whose
+  // following year has been generated as well (see above).
+  last_year_ -= 1;
 
   return true;
 }
